@@ -1009,8 +1009,8 @@ class Table(Vector):
 		if self._dtype is not None and self._dtype.kind in (bool, int) and isinstance(other, int):
 			warnings.warn(f"The behavior of >> and << have been overridden. Use .bitshift() to shift bits.")
 
-		# Dict syntax: {name: values, ...}
-		if isinstance(other, dict):
+		# Dict syntax: {name: values, ...} (any mapping)
+		if isinstance(other, Mapping):
 			# Convert dict to named Vectors
 			named_cols = []
 			for col_name, values in other.items():
